@@ -17,6 +17,15 @@ static inline void vec_char_resize(struct vec_char *v, size_t n) {
   for (size_t i = v->size; i < n; ++i) v->data[i] = 0;
   v->size = n;
 }
+#ifdef VERIF_CBMC
+extern size_t ghost_len, ghost_len2;
+static inline void vec_char_append(struct vec_char *v, const uint8_t *src, size_t n)
+__CPROVER_requires(n <= v->cap - v->size && v->size <= v->cap)
+__CPROVER_ensures(v->size == __CPROVER_old(v->size) + n)
+__CPROVER_ensures(ghost_len >= n || v->data[__CPROVER_old(v->size) + ghost_len] == (char)src[ghost_len])
+__CPROVER_ensures(ghost_len2 >= __CPROVER_old(v->size) || ghost_len2 >= v->cap || v->data[ghost_len2] == __CPROVER_old(v->data[ghost_len2 < v->cap ? ghost_len2 : 0]))
+__CPROVER_assigns(v->size, __CPROVER_object_whole(v->data));
+#endif
 static inline void vec_char_append(struct vec_char *v, const uint8_t *src, size_t n) {
 #ifdef VERIF_CBMC
   __CPROVER_assert(v->size + n <= v->cap, "stub: vector model capacity");
